@@ -88,6 +88,40 @@ WHAT = {
     'C19-3': ('eval_number tokenizer: pointed literals through `.into()`', '`2.0` becomes Integer(2)'),
     'C19-4': ('eval_f64 tokenizer: fast path `digits as u64 as f64 / 10^k` for up to 16 digits', '16-digit literals above 2^53 are rounded twice'),
     'C20-3': ('eval_f64 `^`: `sqrt` when the exponent *node* is the literal 0.5', '`x^@` with 0.5 vs `x^(1/2)` for x = -0.0, -inf'),
+    'C01-5': ('eval_decimal tokenizer, `.DIGITS` literal through `Decimal::from_i128_with_scale` (the panicking constructor)', '29 or more fractional digits: panic'),
+    'C01-6': ('eval_f64 `med`: NaN handling moved into the sort comparator (`unwrap_or(Greater)`, not a total order)', "21 or more arguments with a NaN: std's sort panics"),
+    'C02-5': ('eval_number `n!`: `(2..=n).fold(Some(1), checked_mul)` - no early exit', '`9223372036854775807!` runs 2^63 iterations, every value unchanged'),
+    'C02-6': ('eval_i64 parser: `^` and superscript arms merged, the superscript path no longer consumes its token', '`2²` never returns'),
+    'C03-6': ('`deserialize_superscript_number` rewritten with `by_ref().map_while(..)` (all five evaluators)', 'the character after an exponent is swallowed: `2²)` = 4'),
+    'C03-7': ('eval_number parser: the literal-after-literal check removed', '`1.2.3` = 0.36'),
+    'C04-5': ('eval_number prefix `+`: operand parsed at Additive level', '`12/+2*3` = 2'),
+    'C04-6': ('eval_f64 `^`: `(a^b)^c` computed as `a.powf(b*c)`', 'negative base, even inner and fractional outer exponent: `-8^2^0.5` = -8'),
+    'C05-5': ('eval_f64 `sqrt(x)` delegated to the `root` arm (`powf(x, 0.5)`)', '`sqrt(-0)` = +0.0, `sqrt(-inf)` = +inf'),
+    'C05-6': ('eval_f64 tokenizer: superscript arms merged, the exponent parsed as u32', 'a superscript exponent of 2^32 or more: Err instead of a value'),
+    'C06-5': ('eval_i64 `*`: returns 0 as soon as the left factor is 0, the right factor is not evaluated', '`0*(1/0)` = 0 instead of Err'),
+    'C06-6': ('eval_i64 tokenizer: literal accumulated numerically, the final `+ digit` unchecked', '`9223372036854775808` wraps / panics'),
+    'C07-5': ('eval_decimal tokenizer: trailing zeros trimmed through the decimal point', '`10.0*3` = 3'),
+    'C07-6': ('eval_decimal `%` re-implemented as `a - trunc(a/b)*b`', 'quotients that round or overflow'),
+    'C08-5': ('eval_complex `arcosh` written out as `ln(z + sqrt(z*z - 1))`', 'Re(z) < 0: the non-principal branch'),
+    'C08-6': ('eval_complex wrapper drops a component below |z| * EPSILON', '`10000000000000000+i` loses its imaginary part'),
+    'C09-5': ('`Number::from(f64)`: integrality through the round trip `(v as i64) as f64 == v`', 'exactly 2^63 becomes Integer(i64::MAX)'),
+    'C09-6': ('eval_number wrapper passes the placeholder through `Number::from`', 'an integral Float placeholder enters as Integer: exact instead of IEEE arithmetic above 2^53'),
+    'C10-6': ('eval_f64 `^`: whole exponents through `powi(exponent as i32)`', '|exponent| >= 2^31 saturates: `pow(-1, 2^31)` = -1'),
+    'C10-7': ('eval_decimal `x!`: branches flattened to `x % 1 > 0` first', 'negative non-integers: Err instead of Gamma(x+1)'),
+    'C11-4': ('eval_i64 `gcd`: stops evaluating once the running gcd is 1', '`gcd(9,4,1/0)` = 1 instead of Err'),
+    'C11-5': ('eval_decimal `med`: `select_nth_unstable(mid)`, still reading `results[mid - 1]`', 'even counts of 18 or more arguments in some orders'),
+    'C12-5': ('eval_decimal parser: `avg()` returns early, skipping the implicit product', '`avg()(3)` is rejected'),
+    'C12-6': ('eval_number: the literal-after-literal check moved into `implicit_multiply`, keyed on the left *node* being a literal', '`(2)3` is rejected (a bracketed literal looks like a literal)'),
+    'C13-6': ("eval_i64 tokenizer: the ten superscript arms merged into `'²' | '³' | '⁰'..='⁹'`", '`¹` (U+00B9) is outside the range: `2¹⁰` is rejected'),
+    'C13-7': ('eval_f64: wrapper strips ASCII whitespace only, the tokenizer skips leading Unicode whitespace', 'non-ASCII blanks inside a number or name: `1\\u{a0}000+1`'),
+    'C14-5': ('eval_number: new `Token::starts_operand()` (includes `@`, `pi`, `e`) used by `implicit_multiply`', '`2@` becomes a product'),
+    'C14-6': ('eval_i64 wrapper caches the last parsed AST per thread', 'a second call with the same text and another placeholder reads the old value'),
+    'C15-5': ('eval_number `get_oper_prec`: `!` classed Power', '`2^3!` = (2^3)!, `-3!` differs from eval_i64'),
+    'C15-6': ('eval_complex `abs` = `norm_sqr().sqrt()`', 'real operands above 1.3e154 overflow to inf'),
+    'C19-5': ('eval_number tokenizer: point-free literals through `parse::<f64>()` and `Number::from`', 'literals above 2^53 lose their low digits'),
+    'C19-6': ('eval_f64 wrapper rejects expressions longer than 256 bytes', 'the printed form of `2^1000` (302 characters) does not read back'),
+    'C20-4': ('eval_number parser cancels a double unary minus', '`-(-x)` with x = i64::MIN: Integer(MIN) vs Float(-2^63)'),
+    'C20-5': ('eval_f64 `^`: `powi` when the exponent *node* is a whole-number literal', '`1.3^(1+2)` vs `1.3^@` with 3.0'),
 }
 
 
